@@ -122,6 +122,28 @@ func safeGetters(c psatoken.IClaims) map[string]Ret {
 	return g
 }
 
+// compGettersOf calls the five getters of every component GetSoftwareComponents hands out.
+func compGettersOf(c psatoken.IClaims) (out []map[string]Ret) {
+	out = []map[string]Ret{}
+	defer func() {
+		if p := recover(); p != nil {
+			out = []map[string]Ret{{"mt": {OK: false, Cls: []string{"PANIC"}, Val: absent()}}}
+		}
+	}()
+	l, err := c.GetSoftwareComponents()
+	if err != nil {
+		return out
+	}
+	for _, sc := range l {
+		p, ok := sc.(*psatoken.SwComponent)
+		if !ok || p == nil {
+			continue
+		}
+		out = append(out, compGetters(p))
+	}
+	return out
+}
+
 func safeValidate(c psatoken.IClaims) Ret {
 	return guard(func() Ret { return mkRet(c.Validate(), absent()) }, false)
 }
@@ -149,18 +171,19 @@ func encDigest(c psatoken.IClaims) (s string) {
 }
 
 type readEv struct {
-	B      int            `json:"b"`
-	I      int            `json:"i"`
-	Op     string         `json:"op"`
-	Src    string         `json:"src"`
-	How    string         `json:"how"`
-	Pre    Obj            `json:"pre"`
-	Post   Obj            `json:"post"`
-	VRet   Ret            `json:"vret"`
-	Get    map[string]Ret `json:"get"`
-	SnapEq bool           `json:"snapEq"`
-	EncEq  bool           `json:"encEq"`
-	RepEq  bool           `json:"repEq"`
+	B      int              `json:"b"`
+	I      int              `json:"i"`
+	Op     string           `json:"op"`
+	Src    string           `json:"src"`
+	How    string           `json:"how"`
+	Pre    Obj              `json:"pre"`
+	Post   Obj              `json:"post"`
+	VRet   Ret              `json:"vret"`
+	Get    map[string]Ret   `json:"get"`
+	CGet   []map[string]Ret `json:"cget"`
+	SnapEq bool             `json:"snapEq"`
+	EncEq  bool             `json:"encEq"`
+	RepEq  bool             `json:"repEq"`
 }
 
 func jsonEq(a, b any) bool {
@@ -177,6 +200,7 @@ func observeRead(c psatoken.IClaims, b int, src, how string) readEv {
 	snap0, enc0 := deepDump(c), encDigest(c)
 	ev.VRet = safeValidate(c)
 	ev.Get = safeGetters(c)
+	ev.CGet = compGettersOf(c)
 	v2, g2 := safeValidate(c), safeGetters(c)
 	ev.RepEq = jsonEq(ev.VRet, v2) && jsonEq(ev.Get, g2)
 	enc1 := encDigest(c)
